@@ -103,15 +103,42 @@ def spec_features(spec):
 
 @st.composite
 def valid_strategy(draw):
-    spec = draw(gen_tab.sidecar_spec(VERSION, 1, 4))
+    used = set()
+    spec = draw(gen_tab.sidecar_spec(VERSION, 1, 4, used=used))
     doc = gen_tab.sidecar_json(spec)
-    return {"doc": doc, "ncols": len(spec["order"]), "nrefs": spec_features(spec)}
+    with_defs = False
+    if draw(st.integers(0, 2)) == 0:
+        # a definitions column, a placeholder definition used in Def or Def-expand form inside a value column and a
+        # plain definition used in a categorical entry
+        pl = gen_hed.pool(VERSION)
+        fresh = [n.short for n in pl.plain if n.long not in used][:40]
+        f1, f2 = fresh[draw(st.integers(0, 19))], fresh[draw(st.integers(20, 39))]
+        defs = {"d1": f"(Definition/PlainDef, ({f1}))"}
+        val_cols = [k for k, v in doc.items() if isinstance(v, dict) and isinstance(v.get("HED"), str)]
+        cat_cols = [k for k, v in doc.items() if isinstance(v, dict) and isinstance(v.get("HED"), dict)]
+        if val_cols:
+            vc = val_cols[0]
+            import re
+            m = re.search(r"[A-Za-z0-9-]+/#", doc[vc]["HED"])
+            ph = m.group(0)
+            defs["d2"] = f"(Definition/PhDef/#, ({ph}, {f2}))"
+            form = draw(st.sampled_from(["Def/PhDef/#", f"(Def-expand/PhDef/#, ({ph}, {f2}))",
+                                         f"(Def-expand/PhDef/#, ({f2}, {ph}))"]))
+            doc[vc]["HED"] = doc[vc]["HED"].replace(ph, form, 1)
+        if cat_cols:
+            cc = cat_cols[0]
+            k = sorted(doc[cc]["HED"])[0]
+            doc[cc]["HED"][k] = doc[cc]["HED"][k] + ", Def/PlainDef"
+        doc["mydefs"] = {"HED": defs}
+        with_defs = True
+    return {"doc": doc, "ncols": len(spec["order"]), "nrefs": spec_features(spec), "with_defs": with_defs}
 
 
 def oracle_valid(case):
     out = Outcome()
     out.nontrivial = case["ncols"] >= 2 or case["nrefs"] > 0
-    out.classes = tuple(c for c, ok in (("refs", case["nrefs"] > 0), ("cols>=3", case["ncols"] >= 3)) if ok)
+    out.classes = tuple(c for c, ok in (("refs", case["nrefs"] > 0), ("cols>=3", case["ncols"] >= 3),
+                                        ("definitions", case.get("with_defs", False))) if ok)
     issues = run_validate(case["doc"])
     if not well_formed(issues, out):
         return out
